@@ -783,6 +783,13 @@ func (i *interpreter) chanRecv(fr *frame, ch *channel) (value, bool) {
 		}
 		if ch.timer && !ch.fired {
 			// a lone timer receive: advance the virtual clock
+			if i.ex.sched != nil && !i.ex.timerDue(ch) {
+				// ... once nobody else can move
+				i.ex.pendingTimers = []*channel{ch}
+				if i.ex.onBlocked(fr, "timer", ch) {
+					continue
+				}
+			}
 			i.ex.fireTimer(ch)
 			continue
 		}
@@ -845,6 +852,12 @@ func (i *interpreter) selectOp(fr *frame, instr *ssa.Select) value {
 		case len(timers) > 0:
 			// only timers can make progress: let the harness run other
 			// units first; otherwise fire the earliest timer.
+			if i.ex.sched != nil {
+				i.ex.pendingTimers = nil
+				for _, j := range timers {
+					i.ex.pendingTimers = append(i.ex.pendingTimers, fr.get(instr.States[j].Chan).(*channel))
+				}
+			}
 			if i.ex.onBlocked(fr, "select", nil) {
 				continue
 			}
